@@ -202,6 +202,14 @@ func shJudge(c *mon.Ctx, in *shCase, legacy bool) {
 	}
 	c.Eval(1)
 	tx := s.BuildShared() // scripts packed back to back in one arena: a write behind any of them shows in the snapshot
+	// what a caller writing length-prefixed data does with the library's varint
+	// encoder: take the prefix and append the payload to it (the result is the
+	// caller's; the library's own length prefixes must not depend on it)
+	c.Try("VarInt.Bytes", func() {
+		n := uint64(len(s.Ins)+3*len(s.Outs)) % 4
+		frame := append(bt.VarInt(n).Bytes(), bytes.Repeat([]byte{0xEE}, 250)...)
+		_ = frame
+	})
 	flag := sighash.Flag(in.HashType)
 	var snap0 []byte
 	if !c.Try("bt.(*Tx).ExtendedBytes", func() { snap0 = shSnapshot(tx) }) {
@@ -544,6 +552,34 @@ func shRun(c *mon.Ctx, prop string, forkid bool, judge func(*mon.Ctx, *shCase)) 
 		}
 	}
 
+	c.Phase("many-inputs-outputs") // input / output counts around the varint boundary and around powers of two (internal batch sizes)
+	{
+		few := []uint8{0x41, 0x42, 0x43, 0xc1, 0xc2, 0xc3}
+		if !forkid {
+			few = []uint8{0x01, 0x02, 0x03, 0x81, 0x82, 0x83}
+		}
+		n = 0
+		for _, shape := range [][2]int{{253, 2}, {1023, 1}, {1024, 1}, {1025, 3}, {1500, 2}, {2, 253}, {3, 1024}, {2, 1025}, {254, 254}} {
+			for ti, t := range few {
+				n++
+				if !c.Case(n) {
+					continue
+				}
+				r := c.Rand(n)
+				s := gen.ShapeN(r, shape[0], shape[1], gen.ShapeOpts{ScriptLens: []int{0, 1, 25}})
+				for i := range s.Ins {
+					s.Ins[i].PrevScriptNil = false
+					s.Ins[i].Seq = uint32(i*7 + 1)
+				}
+				for _, idx := range []uint32{0, uint32(shape[0] - 1), uint32(shape[0] / 2)} {
+					if ti%2 == 1 && idx != 0 {
+						continue
+					}
+					judge(c, &shCase{Shape: *s, Idx: idx, HashType: t})
+				}
+			}
+		}
+	}
 	c.Phase("random-shapes")
 	N := uint64(5000)
 	if c.Thorough {
